@@ -102,7 +102,7 @@ impl Rng {
 // ---------------------------------------------------- content classes ----
 
 pub const CONTENT_CLASSES: &[&str] = &[
-    "random", "zero", "ff", "period2", "period3", "period255", "sparse", "text", "half", "runs",
+    "random", "zero", "ff", "period2", "period3", "period255", "sparse", "text", "half", "runs", "litruns",
 ];
 
 /// Deterministic content of a compressibility class.
@@ -151,6 +151,22 @@ pub fn gen_content(rng: &mut Rng, class: &str, len: usize) -> Vec<u8> {
                 for _ in 0..lits {
                     v.push((rng.next_u32() as u8) | 1);
                 }
+            }
+            v.truncate(len);
+            v
+        }
+        "litruns" => {
+            // non-zero literal runs whose lengths sit on the RLE literal-count boundaries (0x7F/0x80/0x81 and multiples),
+            // separated by zero runs long enough to be encoded as runs, so that the sparse form is shorter than the input
+            let lits = [1usize, 2, 126, 127, 128, 129, 130, 255, 256, 257, 258, 384, 385, 386, 513];
+            let mut v = Vec::with_capacity(len + 600);
+            while v.len() < len {
+                let n = *rng.pick(&lits);
+                for _ in 0..n {
+                    v.push((rng.next_u32() as u8) | 1);
+                }
+                let z = 3 + rng.usize(140);
+                v.extend(std::iter::repeat(0u8).take(z));
             }
             v.truncate(len);
             v
